@@ -15,6 +15,40 @@ class Spin(BaseException):
     counted in virtual steps, no wall clock)."""
 
 
+class Stuck(BaseException):
+    """raised INTO a library call that has not returned after STUCK_S seconds of WALL time although every simulated
+    transport call returns at once (a thread waiting for a lock it holds itself, say): the harness's own watchdog."""
+
+
+STUCK_S = 4.0
+_stuck_seen = 0
+
+
+class stuck_guard:
+    """`with stuck_guard():` around one library call — main thread of the process only (signals); elsewhere a no-op."""
+
+    def __enter__(self):
+        import signal
+        import threading
+        self.on = threading.current_thread() is threading.main_thread()
+        if self.on:
+            def h(sig, frm):
+                global _stuck_seen
+                _stuck_seen += 1
+                raise Stuck()
+            self.old = signal.signal(signal.SIGALRM, h)
+            # (after a few calls that never returned the point is made: the rest of the run waits less for each)
+            signal.setitimer(signal.ITIMER_REAL, STUCK_S if _stuck_seen < 2 else 0.05)
+        return self
+
+    def __exit__(self, *a):
+        if self.on:
+            import signal
+            signal.setitimer(signal.ITIMER_REAL, 0)
+            signal.signal(signal.SIGALRM, self.old)
+        return False
+
+
 class Deadline(BaseException):
     """a deadline / cancellation raised INTO the running call by the caller's framework (not an Exception)."""
 
